@@ -385,6 +385,9 @@ def c11(cfg, events, case=None):
     the lifecycle of a change to `d` (reenter alone when `d` is already active), end in `d`, consult no guard and leave
     `d` in previousTransition(); replayTransition(INVALID) returns false and runs nothing"""
     v = c02(cfg, events, case)
+    if not v and case and cfg.history:
+        # origin and payload of the recorded transition are those of a request somebody made / a task somebody appended
+        v = provenance(cfg, events, case)
     if v or not case or not cfg.history or not cfg.all_defined(LIFE):
         return v
     ops = case_ops(case)
